@@ -21,8 +21,8 @@ import re
 import signal
 import traceback
 
-from pywbem import (CIMInstanceName, CIMInstance, CIMClass, CIMProperty,
-                    CIMMethod, CIMParameter, CIMQualifier,
+from pywbem import (CIMInstanceName, CIMClassName, CIMInstance, CIMClass,
+                    CIMProperty, CIMMethod, CIMParameter, CIMQualifier,
                     CIMQualifierDeclaration, CIMDateTime, CIMInt, CIMFloat,
                     Real32)
 
@@ -107,7 +107,13 @@ PUNCT = '.,;:-_/()[]{}<>=+*#$%&!?|~^@`'
 NONASCII = ['\x7f', '\x80', '\x85', '\xa0', '\xe4', '\xdf', 'Ж',
             '€', ' ', ' ', '中', '퟿', '',
             '﻿', '�', '￿', '\U00010000', '\U0001f600',
-            '\U0010ffff']
+            '\U0010ffff',
+            # decimal digits and digit-like characters outside ASCII
+            # (str.isdigit()/isdecimal() are true for them)
+            '\xb2', '\xb9', '٣', '߁', '१', '５',
+            '\U0001d7d7']
+UNICODE_DIGITS = ['\xb2', '\xb9', '٣', '߁', '१', '５',
+                  '①', '\U0001d7d7', '\U0001d7ce']
 LOOKALIKES = ['\\n', '\\t', '\\x41', '\\x0001', '\\X1', '\\"', "\\'", '\\\\',
               '\\', '\\x', '\\q', '""', "''", '" "', '";', '*/', '/*', '//',
               '#pragma', 'NULL', '{', '}', '\\x00']
@@ -280,6 +286,142 @@ def fold_offsets(res, E, q):
     return None
 
 
+# ------------------------------------- string constants written by hand ----
+# The string clause of C08 is about MOF string literals "written in the
+# source", not only about what tomof() writes: a string constant is any number
+# of adjacent literals, every character may be written raw or in any of its
+# DSP0004 escape forms (simple escape, \x or \X with 1 to 4 hex digits).
+
+SIMPLE_ESCAPES = {'\\': '\\\\', '\b': '\\b', '\t': '\\t', '\n': '\\n',
+                  '\f': '\\f', '\r': '\\r', '"': '\\"', "'": "\\'"}
+LITERAL_SEPARATORS = [' ', ' ', '\n', '\n      ', '\t', '  ', '\r\n   ',
+                      ' /* c */ ', ' // c\n   ', '']
+
+
+def handmade_string(rng):
+    """A string directed at the joints between literals and at the ends of
+    hex escapes: control characters, hex digits, digits outside ASCII."""
+    r = rng.random()
+    if r < 0.35:
+        return mof_string(rng, maxlen=60)[1]
+    out = []
+    for _ in range(rng.choice([1, 2, 3, 5, 8, 13, 30])):
+        q = rng.random()
+        if q < 0.3:
+            out.append(rng.choice(CONTROLS))
+        elif q < 0.55:
+            out.append(rng.choice(_HEX))
+        elif q < 0.65:
+            out.append(rng.choice(UNICODE_DIGITS))
+        elif q < 0.75:
+            out.append(rng.choice('"\'\\ '))
+        elif q < 0.85:
+            out.append(rng.choice(NONASCII))
+        else:
+            out.append(rng.choice(LETTERS + PUNCT))
+    return ''.join(out)
+
+
+class Handmade:
+    """One string constant as a sequence of atoms (character, escape form)
+    cut into literals.  Forms: 'raw', 'simple', ('x'|'X', number of digits,
+    upper-case digits)."""
+
+    def __init__(self, rng, s, escapes=None):
+        self.value = s
+        self.atoms = []
+        if escapes is None:
+            escapes = rng.choice([0.0, 0.1, 0.4, 1.0])
+        for ch in s:
+            o = ord(ch)
+            can_raw = o >= 32 and ch not in '"\\'
+            can_hex = 0 < o <= 0xFFFF
+            if can_raw and (rng.random() >= escapes or not can_hex):
+                self.atoms.append((ch, 'raw'))
+            elif ch in SIMPLE_ESCAPES and (rng.random() < 0.5 or
+                                           not can_hex):
+                self.atoms.append((ch, 'simple'))
+            else:
+                nmin = len('%x' % o)
+                n = rng.choice([nmin, nmin, 4, rng.randint(nmin, 4)])
+                self.atoms.append((ch, (rng.choice('xxX'), n,
+                                        rng.random() < 0.5)))
+        # a new literal starts in front of these atoms
+        n = len(self.atoms)
+        self.breaks = set()
+        if n > 1 and rng.random() < 0.8:
+            k = rng.choice([1, 1, 2, 3, n // 2 + 1])
+            self.breaks = set(rng.sample(range(1, n), min(k, n - 1)))
+        # inside a literal a short hex escape must not be followed by a hex
+        # digit: pad it, or (more often) start a new literal there
+        self.padded = set()
+        for i in range(n - 1):
+            if self.is_short(i) and i + 1 not in self.breaks and \
+                    self.text(i + 1)[0] in _HEX:
+                if rng.random() < 0.7:
+                    self.breaks.add(i + 1)
+                else:
+                    self.padded.add(i)
+        self.seps = {b: rng.choice(LITERAL_SEPARATORS) for b in self.breaks}
+        # empty literals are legal members of a constant
+        self.empties = set(b for b in self.breaks if rng.random() < 0.08)
+
+    def is_short(self, i, pad=()):
+        form = self.atoms[i][1]
+        return isinstance(form, tuple) and form[1] < 4 and \
+            i not in self.padded and i not in pad
+
+    def text(self, i, pad=()):
+        ch, form = self.atoms[i]
+        if form == 'raw':
+            return ch
+        if form == 'simple':
+            return SIMPLE_ESCAPES[ch]
+        x, n, upper = form
+        if i in self.padded or i in pad:
+            n = 4
+        digits = '%0*x' % (n, ord(ch))
+        return '\\' + x + (digits.upper() if upper else digits)
+
+    def category(self, i):
+        """What follows the short hex escape i (the mechanism classes)."""
+        if i + 1 >= len(self.atoms):
+            return 'at-end-of-constant'
+        nxt = self.text(i + 1)[0]
+        if i + 1 in self.breaks:
+            return 'at-end-of-literal.next-literal-starts-with-hex-digit' \
+                if nxt in _HEX else 'at-end-of-literal'
+        if ord(nxt) > 127 and (nxt.isdigit() or nxt.isdecimal() or
+                               nxt.isnumeric()):
+            return 'before-non-ascii-digit'
+        return 'inside-literal'
+
+    def categories(self):
+        return sorted({self.category(i) for i in range(len(self.atoms))
+                       if self.is_short(i)})
+
+    def render(self, pad_category=None, pad_all=False):
+        pad = set()
+        for i in range(len(self.atoms)):
+            if self.is_short(i) and (pad_all or
+                                     self.category(i) == pad_category):
+                pad.add(i)
+        out = ['"']
+        for i in range(len(self.atoms)):
+            if i in self.breaks:
+                out.append('"' + self.seps[i])
+                if i in self.empties:
+                    out.append('""' + self.seps[i])
+                out.append('"')
+            out.append(self.text(i, pad))
+        out.append('"')
+        return ''.join(out)
+
+    def canonical(self):
+        """The same value as one literal in the form tomof() writes."""
+        return '"' + ref_escape(self.value) + '"'
+
+
 # --------------------------------------------------------------- values ----
 
 def scalar(rng, cimtype, sclass=None):
@@ -390,13 +532,20 @@ REF_HOSTS = [None, None, None, 'srv1', 'woot.com', '10.11.12.13:5989']
 REF_NS = ['root/cimv2', 'root', 'interop', 'root/cimv2/sub']
 
 
-def ref_value(rng, classname, tags=None):
+def ref_value(rng, classname, tags=None, class_paths=0.12):
     """An instance path whose keys are strings (with quotes, backslashes and
     apostrophes - they pass through WBEM-URI escaping and then through MOF
     escaping) and plain integers; URI defects of other key types are C07's
     business.  No '=' in the strings: from_wbem_uri() reads a string key that
     looks like 'Class.key=value' as a reference (documented ambiguity of the
     untyped WBEM URI)."""
+    if rng.random() < class_paths:
+        # a class path: a reference may hold one (cimvalue(), CIMProperty)
+        # and MOF expresses it as the WBEM URI of the class
+        if tags is not None:
+            tags.append('ref-classpath')
+        return CIMClassName(classname, namespace=rng.choice(REF_NS),
+                            host=rng.choice(REF_HOSTS))
     kbs = []
     for kn in idents(rng, rng.choice([1, 1, 2, 3]), keywords=0):
         r = rng.random()
@@ -553,10 +702,16 @@ def instance(rng, cls, deps, tags=None):
             if rng.random() < 0.15:
                 v = None
             elif p.is_array:
-                # (an empty or NULL-holding list cannot be told from "no
-                # value" by the compiler: not generated)
-                v = [embedded_instance(rng, dep, tags)
-                     for _ in range(rng.randint(1, 3))]
+                # like every other array: any length including 0, NULL
+                # entries
+                v = [None if rng.random() < 0.08 else
+                     embedded_instance(rng, dep, tags)
+                     for _ in range(rng.choice([0, 1, 1, 2, 3]))]
+                if tags is not None:
+                    if not v:
+                        tags.append('embedded-array-empty')
+                    if any(x is None for x in v):
+                        tags.append('embedded-array-null-entry')
             else:
                 v = embedded_instance(rng, dep, tags)
             if tags is not None and v is not None:
@@ -610,6 +765,8 @@ def pv(v, t=None):
         return ('ref', v.classname, v.namespace, v.host,
                 ('keys',) + tuple(('key', k, pkey(x)) for k, x in sorted(
                     v.keybindings.items(), key=lambda kv: kv[0].lower())))
+    if isinstance(v, CIMClassName):
+        return ('classref', v.classname, v.namespace, v.host)
     if isinstance(v, CIMInstance):
         return p_instance(v)
     return ('other', type(v).__name__, repr(v))
@@ -772,3 +929,32 @@ def rewrite(kind, obj, f):
         if p.type in ('string', 'reference'):
             p.value = map_strings(p.value, f)
     return o
+
+
+def without_class_paths(kind, obj):
+    """Copy with every class path held by a reference replaced by an
+    instance path of that class; None if there is none."""
+    o = copy.deepcopy(obj)
+    n = 0
+    for p in o.properties.values():
+        if isinstance(p.value, CIMClassName):
+            p.value = CIMInstanceName(p.value.classname, {'k': 1},
+                                      namespace=p.value.namespace,
+                                      host=p.value.host)
+            n += 1
+    return o if n else None
+
+
+def without_null_embedded_entries(kind, obj):
+    """Copy of an instance with the NULL entries of its embedded-object
+    arrays removed; None if there is none."""
+    if kind != 'instance':
+        return None
+    o = copy.deepcopy(obj)
+    n = 0
+    for p in o.properties.values():
+        if p.embedded_object and isinstance(p.value, list) and \
+                any(x is None for x in p.value):
+            p.value = [x for x in p.value if x is not None]
+            n += 1
+    return o if n else None
